@@ -1253,6 +1253,13 @@ func inlineInstances(root *Instance, all []*Instance) (string, []inlineSeg) {
 
 func inlinedLocation(c *Case, o *Outcome, mr *modelResult, res *Result) (class, msg string) {
 	e := o.Err
+	if e.Index >= len(e.content) || strings.TrimSpace(string(e.content[e.Index+1:])) == "" {
+		// an error at the END of a file (at the end position, or on its last non-blank byte) ("unexpected end of file", an unclosed construct): the
+		// single-file version has no end of file at that place - whatever follows the INCLUDE in the
+		// including file continues the construct, and the same message is legitimately reported elsewhere
+		res.count("c07:inlined-comparison-inconclusive(error-at-end-of-file)", 1)
+		return "", ""
+	}
 	text, segs := inlineInstances(mr.instances[0], mr.instances)
 	o2 := BuildMem(mr.instances[0].Path, []byte(text), c.Banned...)
 	if o2.Err == nil || o2.Err.Msg != e.Msg {
